@@ -20,6 +20,8 @@ import (
 	"sort"
 	"strconv"
 	"strings"
+	"sync"
+	"time"
 )
 
 type pkg struct {
@@ -82,28 +84,52 @@ type genFailure struct {
 
 var failures []genFailure
 
-// runGen runs one generator; mods are the Gen modules it is responsible for.
+// runGen runs one generator; mods are the Gen modules it is responsible for. Generators that read
+// behaviour off the running library can be made to hang by the code under test (a lock that is never
+// released): each runs under a watchdog, and one that does not return counts as failed.
 func runGen(name string, mods []string, fn func()) {
-	defer func() {
-		if r := recover(); r != nil {
-			msg := fmt.Sprint(r)
-			if ef, ok := r.(extractFailure); ok {
-				msg = ef.msg
-			}
-			failures = append(failures, genFailure{name, mods, msg})
-			fmt.Printf("TRANSLATOR-FAILURE %s [%s]: %s\n", name, strings.Join(mods, ","), strings.ReplaceAll(msg, "\n", " "))
-			for _, m := range mods {
-				// keep whatever an earlier run generated
-				matches, _ := filepath.Glob(filepath.Join(outDir, m+"*.lean"))
-				for _, f := range matches {
-					rel, _ := filepath.Rel(outDir, f)
-					emitted[rel] = true
-				}
+	fail := func(msg string) {
+		stateMu.Lock()
+		defer stateMu.Unlock()
+		failures = append(failures, genFailure{name, mods, msg})
+		fmt.Printf("TRANSLATOR-FAILURE %s [%s]: %s\n", name, strings.Join(mods, ","), strings.ReplaceAll(msg, "\n", " "))
+		for _, m := range mods {
+			// keep whatever an earlier run generated
+			matches, _ := filepath.Glob(filepath.Join(outDir, m+"*.lean"))
+			for _, f := range matches {
+				rel, _ := filepath.Rel(outDir, f)
+				emitted[rel] = true
 			}
 		}
+	}
+	done := make(chan string, 1)
+	go func() {
+		defer func() {
+			if r := recover(); r != nil {
+				msg := fmt.Sprint(r)
+				if ef, ok := r.(extractFailure); ok {
+					msg = ef.msg
+				}
+				done <- msg
+				return
+			}
+			done <- ""
+		}()
+		fn()
 	}()
-	fn()
+	select {
+	case msg := <-done:
+		if msg != "" {
+			fail(msg)
+		}
+	case <-time.After(genTimeout):
+		fail(fmt.Sprintf("the generator did not return within %v (a library call it makes never returns)", genTimeout))
+	}
 }
+
+const genTimeout = 60 * time.Second
+
+var stateMu sync.Mutex
 
 func (p *pkg) constInt(name string) int64 {
 	o := p.tpkg.Scope().Lookup(name)
@@ -225,6 +251,8 @@ var changed []string
 var emitted = map[string]bool{}
 
 func emit(mod string, body *bytes.Buffer) {
+	stateMu.Lock()
+	defer stateMu.Unlock()
 	hdr := "-- GENERATED by harness/cmd/extract from /repo's current sources. Do not edit.\n"
 	p := filepath.Join(outDir, mod+".lean")
 	os.MkdirAll(filepath.Dir(p), 0o755)
